@@ -116,6 +116,9 @@ def wallet_cases(draw):
         "change_first": draw(st.booleans()),
         "spend_fraction": draw(st.lists(st.integers(1, 40), min_size=3, max_size=3)),
         "fee": draw(st.integers(1000, 50000)),
+        # global xpub records are optional in a PSBT: without them nothing but the summary itself checks
+        # the key derivations
+        "strip_global_xpubs": draw(st.booleans()),
     }
 
 
@@ -133,7 +136,8 @@ SPEND_KINDS = ["op_return_zero", "op_return_value", "op_return_value", "p2sh", "
                "p2pk", "bare_multisig", "empty", "op_true", "witness_v2"]
 TAMPER_IN = ["in_foreign_script", "in_wrong_path", "in_foreign_fingerprint", "in_key_swapped",
              "in_prev_tx_amount", "in_prev_tx_other", "in_changed_quorum_script",
-             "in_witness_utxo_contradicts_prev_tx", "in_p2sh_as_witness_utxo_foreign_script"]
+             "in_witness_utxo_contradicts_prev_tx", "in_p2sh_as_witness_utxo_foreign_script",
+             "in_paths_copied_from_other_input"]
 
 
 _TAMPER_CHOICE = choice(TAMPER_OUT + TAMPER_IN)
@@ -147,6 +151,8 @@ def tamper_cases(draw):
     c["delta"] = draw(st.integers(1, 1000))
     if c["tamper"].startswith("out_") or c["tamper"] in ("second_change_output",):
         c["has_change"] = True
+    if c["tamper"] == "in_paths_copied_from_other_input":
+        c["n_in"] = 2
     return c
 
 
@@ -308,6 +314,10 @@ def check_honest(case, ctx):
         ctx.label("duplicate_spend_address")
     ctx.nontrivial(case["has_change"] or model.n >= 2)
     pm = parse_own(blob)
+    if case.get("strip_global_xpubs"):
+        pm["global"] = [(k, v) for k, v in pm["global"] if k[:1] != b"\x01"]
+        blob = psbtmap.serialize(pm)
+        ctx.label("without_global_xpubs")
     st_, desc = describe(blob, hmap)
     require(st_ == "ok", "honest/describe_raises", f"{type(desc).__name__}: {desc}"[:300])
     check_summary(desc, pm, model, "honest")
@@ -477,6 +487,15 @@ def check_tamper(case, ctx):
         else:
             ptx["ins"][0]["prev"] = bytes(32)
         pm["inputs"][j][i] = (k, psbtmap.write_tx_legacy(ptx))
+    elif t == "in_paths_copied_from_other_input":
+        # every key of one input declares the derivation path of the OTHER input's address: paths that are
+        # genuine for the wallet (and checked when the other input is examined), but wrong for these keys
+        j = 1 if w % 3 else 0  # mostly the LATER input (its paths were seen, and verified, on the earlier one)
+        other_idx = info["prevs"][1 - j]["idx"]
+        kvs = pm["inputs"][j]
+        for i, k, v in derivs(kvs, b"\x06"):
+            kvs[i] = (k, v[:-4] + other_idx.to_bytes(4, "little"))
+        ctx.label("copied_paths_on_first_input" if j == 0 else "copied_paths_on_second_input")
     elif t == "in_p2sh_as_witness_utxo_foreign_script":
         # a legacy P2SH input presented with a witness UTXO (same scriptPubKey and amount) instead of the
         # previous transaction, and with a redeem script the scriptPubKey does not commit to
@@ -514,6 +533,9 @@ def check_tamper(case, ctx):
         pm["inputs"][j] = [(b"\x00", p["raw"]), (b"\x01", lie)] + kvs
     else:
         raise AssertionError(t)
+    if case.get("strip_global_xpubs"):
+        pm["global"] = [(k, v) for k, v in pm["global"] if k[:1] != b"\x01"]
+        ctx.label("without_global_xpubs")
     edited = psbtmap.serialize(pm)
     assert edited != blob or t == "both_utxo_forms_consistent"
     st_, desc = describe(edited, hmap)
